@@ -74,13 +74,34 @@ def neutral_variants():
                              ("docstring added to every function without one", _add_docstrings),
                              ("keyword arguments of every call reversed", _reverse_keywords),
                              ("every module re-printed from its AST (layout, comments, parentheses normalised)", _reprint),
-                             ("every local variable renamed", _rename_locals)):
+                             ("every local variable renamed", _rename_locals),
+                             ("every two-armed if rewritten as `if not <test>` with the arms exchanged", _negate_swap)):
         out.append((label, transform))
     return out
 
 
 def _prepend_comment(src):
     return "# neutral variant\n\n" + src
+
+
+class _NegateSwap(ast.NodeTransformer):
+    def visit_If(self, node):
+        self.generic_visit(node)
+        # only plain if/else (an elif chain keeps its shape); the test is evaluated once in both forms
+        if node.orelse and not (len(node.orelse) == 1 and isinstance(node.orelse[0], ast.If)):
+            t = node.test
+            if isinstance(t, ast.UnaryOp) and isinstance(t.op, ast.Not):
+                new_test = t.operand
+            else:
+                new_test = ast.UnaryOp(op=ast.Not(), operand=t)
+            node.test, node.body, node.orelse = new_test, node.orelse, node.body
+        return node
+
+
+def _negate_swap(src):
+    tree = _NegateSwap().visit(ast.parse(src))
+    ast.fix_missing_locations(tree)
+    return ast.unparse(tree) + "\n"
 
 
 def _reprint(src):
